@@ -134,6 +134,26 @@ def req_cancel(name, which, k):
             "tasks": [{"name": "rep", "ops": rep}, {"name": "req", "ops": req}]}
 
 
+def req_fullpipe(name, k):
+    """REQ under back-pressure: requests pile up towards an idle REP (recv() times out each time) until a
+    send() parks on the full pipe and is dropped there; then the REP serves and the REQ goes on."""
+    ep = S.endpoint("inproc", name)
+    req = [{"op": "barrier", "name": "go", "parties": 2}, {"op": "connect", "sock": "req", "ep": ep}, {"op": "sleep", "ms": 200}]
+    for i in range(1, 7):
+        req.append({"op": "send", "sock": "req", "mid": "q:%d" % i, "size": 30, "cancel_after_polls": k, "timeout_ms": 250})
+        req.append({"op": "recv", "sock": "req"})                       # RCVTIMEO 40 ms: gives up, the REQ may send again
+    req.append({"op": "barrier", "name": "serve", "parties": 2})
+    for i in range(7, 13):
+        req.append({"op": "send", "sock": "req", "mid": "q:%d" % i, "size": 30, "timeout_ms": 3000})
+        req.append({"op": "recv", "sock": "req", "timeout_ms": 3000})
+    rep = [{"op": "bind", "sock": "rep", "ep": ep}, {"op": "barrier", "name": "go", "parties": 2}, {"op": "barrier", "name": "serve", "parties": 2}]
+    for i in range(14):
+        rep += [{"op": "recv", "sock": "rep", "timeout_ms": 1500}, {"op": "send", "sock": "rep", "mid": "p:%d" % i, "size": 30, "timeout_ms": 1500}]
+    return {"name": name, "deadline_ms": 60000, "meta": {"kind": "fsm", "which": "req-send-fullpipe", "k": k, "tx": "REQ", "rx": "REP"},
+            "sockets": [{"name": "req", "type": "REQ", "opts": [S.i32(S.SNDHWM, 1), S.i32(S.RCVTIMEO, 40)]}, {"name": "rep", "type": "REP", "opts": [S.i32(S.RCVHWM, 1)]}],
+            "tasks": [{"name": "rep", "ops": rep}, {"name": "req", "ops": req}]}
+
+
 def router_permit(name, k):
     """ROUTER: sends to a stalled peer are dropped; sends to another peer must still get through"""
     ep = S.endpoint("tcp", name)
@@ -175,6 +195,8 @@ def build(thorough):
     for which in ["req-send-nopeer", "req-recv", "rep-recv"]:
         for k in ([1, 2] if thorough else [1]):
             scs.append(req_cancel("fsm-%s-k%d" % (which, k), which, k))
+    for k in ([1, 2] if thorough else [1]):
+        scs.append(req_fullpipe("fsm-req-send-fullpipe-k%d" % k, k))
     for k in ks:
         scs.append(router_permit("router-stalled-peer-k%d" % k, k))
     return scs
@@ -297,6 +319,15 @@ def run(ctx):
             for (sock, kind) in (("req", "REQ"), ("rep", "REP")):
                 fsm_runs.append(fsm_events(r, sock, kind))
                 fsm_owner.append((sc, meta, rp))
+            # a dropped send that never reached the REP has not taken effect: the REQ must accept a send next
+            seen_at_rep = set(x.get("mid") for x in S.rets(r, "recv", sock="rep") if x.get("res") == "ok")
+            calls = [x for x in r["records"] if x.get("ev") == "ret" and x.get("sock") == "req" and x.get("op") in ("send", "recv")]
+            for i, x in enumerate(calls[:-1]):
+                nxt = calls[i + 1]
+                if x["op"] == "send" and x.get("res") == "cancelled" and x.get("mid") not in seen_at_rep and nxt["op"] == "send" and nxt.get("res") == "err:InvalidState":
+                    ctx.violation("C09:stuck-state:req", "%s: send(%s) was dropped and never reached the REP, yet the next send(%s) was rejected with InvalidState: the dropped call left the REQ expecting a reply" % (
+                        sc["name"], x.get("mid"), nxt.get("mid")), rp)
+                    break
             # the exchange must have gone on: the last request / reply got through
             reqs = [x for x in S.rets(r, "recv", sock="rep") if x.get("res") == "ok"]
             reps = [x for x in S.rets(r, "recv", sock="req") if x.get("res") == "ok"]
